@@ -23,10 +23,16 @@ FUNCS = {
     'C04': ['temporal_snapshots_ids', 'avg_number_of_nodes'],
     'C18': ['compact_timeslot'],
     'C14': ['path_length', 'path_duration', 'annotate_paths'],
+    'C01': ['presence_test_graph', 'has_interaction_graph', 'presence_test_digraph', 'has_interaction_digraph'],
+    'C02': ['presence_test_graph', 'presence_test_digraph'],
+    'C08': ['presence_test_graph', 'has_interaction_graph', 'presence_test_digraph', 'has_interaction_digraph'],
 }
 # property -> (translator, generated module, equality module); default: the statistics translator
 TIES = {
     'C14': ('py2gallina_paths.py', 'PyGenPaths', 'PyGenPathsEq'),
+    'C01': ('py2gallina_core.py', 'PyGenCore', 'PyGenCoreEq'),
+    'C02': ('py2gallina_core.py', 'PyGenCore', 'PyGenCoreEq'),
+    'C08': ('py2gallina_core.py', 'PyGenCore', 'PyGenCoreEq'),
 }
 DEFAULT_TIE = ('py2gallina_stats.py', 'PyGenStats', 'PyGenStatsEq')
 
